@@ -125,6 +125,15 @@ func strInSliceFold(str string, slice []string) bool {
 }
 
 /*
+isNilPtr returns a Boolean value indicative of whether x
+is a pointer, of whatever type, that is nil.
+*/
+func isNilPtr(x any) bool {
+	v := valOf(x)
+	return v.Kind() == reflect.Ptr && v.IsNil()
+}
+
+/*
 isPtr returns a Boolean value indicative of whether kind
 reflection revealed the presence of a pointer type.
 */
